@@ -109,8 +109,9 @@ def rule_R1(ck):
             else:
                 if not errs:
                     ck.violation(where, f"{tag}: values {cell} outside {lo}..{hi} are accepted without an error (silent truncation)", construct=f"{tag} bounds", expected="error", found="accepted")
-                elif p.kind == "return" and p.value != default:
-                    ck.violation(where, f"{tag}: after the error the value {p.value!r} is returned instead of the default {default!r}", construct=f"{tag} default")
+                elif p.kind == "return" and (default is None or p.value != default):
+                    ck.violation(where, f"{tag}: after the error the value {p.value!r} is returned" + (f" instead of the default {default!r}" if default is not None else "; without a default the operand must be abandoned (RecoverableError): None reaches struct.pack / arithmetic"),
+                                 construct=f"{tag} default")
                 elif p.kind == "raise" and (default is not None or p.value.name != "RecoverableError"):
                     ck.violation(where, f"{tag}: refused values must raise RecoverableError (no default) or return the default; got {p.value!r}", construct=f"{tag} refusal")
     # a value that is not an integer is an error
